@@ -178,7 +178,7 @@ def _str_leaves(t: Term) -> Set[str]:
 def _never_none(t: Term) -> bool:
     if t[0] == "c":
         return t[1] is not None
-    if t[0] == "or":
+    if t[0] in ("or", "vor"):
         return any(x[0] == "c" and bool(x[1]) for x in t[1])       # a true member: the result is a true value
     return t[0] in ("cat", "list", "tuple", "lin")
 
